@@ -3,6 +3,7 @@ import Feox.Drv.Fmt
 import Feox.Drv.Kv
 import Feox.Drv.Cache
 import Feox.Drv.Proto
+import Feox.Drv.Conc
 /-! `feoxdrv` — the Lean side of the correspondence check: reads one operation per line on
 stdin, runs the executable models, prints one answer line per input line.  Imports models
 only (no Mathlib, no proof files), so it links as a native executable. -/
@@ -13,6 +14,7 @@ structure Drv where
   kv : Kv.State := {}
   cache : Cache.State := Cache.mkState 1 0 (fun _ => 0)
   dur : Drv.ProtoDrv.St := {}
+  conc : Drv.ConcDrv.St := {}
 
 def stepLine (d : Drv) (line : String) : IO (Drv × String) := do
   match (line.trimAscii.toString.splitOn " ").filter (· ≠ "") with
@@ -27,6 +29,10 @@ def stepLine (d : Drv) (line : String) : IO (Drv × String) := do
   | "dur" :: rest =>
     match Drv.ProtoDrv.handleDur d.dur rest with
     | some (s, out) => pure ({ d with dur := s }, out)
+    | none => pure (d, "bad-op")
+  | "conc" :: rest =>
+    match Drv.ConcDrv.handle d.conc rest with
+    | some (s, out) => pure ({ d with conc := s }, out)
     | none => pure (d, "bad-op")
   | "shards" :: rest =>
     match Drv.ProtoDrv.handleShards rest with
